@@ -89,6 +89,8 @@ pub(crate) fn execute<P: ParallelIterator>(
         let mut slots = Vec::new();
         let mut arrival = 0u64;
         let ctx = Ctx(region << 20);
+        let me = sim::thread_index().unwrap_or(0);
+        return sim::with_thread_index(me, || {
         'outer: for i in 0..n {
             sim::charge_item();
             sim::with_stats(|s| s.items += 1);
@@ -108,7 +110,8 @@ pub(crate) fn execute<P: ParallelIterator>(
                 break 'outer;
             }
         }
-        return RegionOut { slots };
+        RegionOut { slots }
+        });
     }
 
     let lazy = n > RANDOM_START_CAP;
@@ -135,8 +138,12 @@ pub(crate) fn execute<P: ParallelIterator>(
     let k = sim::workers().min(n).max(1);
 
     let next_worker = std::sync::atomic::AtomicU64::new(1);
+    let caller_index = sim::thread_index().unwrap_or(0);
+    let pool = sim::workers().max(1);
     let worker = || {
-        let ctx = Ctx((region << 20) | next_worker.fetch_add(1, std::sync::atomic::Ordering::Relaxed));
+        let w = next_worker.fetch_add(1, std::sync::atomic::Ordering::Relaxed);
+        let ctx = Ctx((region << 20) | w);
+        sim::with_thread_index((caller_index + (w as usize - 1)) % pool, || {
         loop {
         sim::switch_point();
         // pick the next base index to start (the scheduler decides which)
@@ -239,6 +246,7 @@ pub(crate) fn execute<P: ParallelIterator>(
             }
         }
         }
+        })
     };
 
     shuttle::thread::scope(|s| {
@@ -272,6 +280,94 @@ pub(crate) fn execute<P: ParallelIterator>(
 fn rand_u64() -> u64 {
     use shuttle::rand::Rng;
     shuttle::rand::thread_rng().gen::<u64>()
+}
+
+/// rayon splits a region into adjacent groups of items and combines them pairwise in a tree
+/// whose shape depends on the pool and on work stealing; `identity()` may be used any number
+/// of times. In sequential mode there is one group and a left fold.
+fn random_group_bounds(n: usize) -> Vec<usize> {
+    // returns the end index (exclusive) of every group, the last one being n
+    let mut ends = Vec::new();
+    if n == 0 {
+        return ends;
+    }
+    if sim::mode() == Mode::Sequential {
+        ends.push(n);
+        return ends;
+    }
+    let bits = rand_u64();
+    // small regions: any adjacent split; large ones: a handful of cut points
+    if n <= 64 {
+        for i in 1..n {
+            if (bits >> (i % 64)) & 1 == 1 {
+                ends.push(i);
+            }
+        }
+    } else {
+        let cuts = (bits % 8) as usize;
+        let mut c: Vec<usize> = (0..cuts).map(|_| 1 + (rand_u64() as usize) % (n - 1)).collect();
+        c.sort_unstable();
+        c.dedup();
+        ends.extend(c);
+    }
+    ends.push(n);
+    ends
+}
+
+/// Combine adjacent values pairwise in a random tree shape (index order of the operands is
+/// kept: only associativity is assumed, as rayon documents for `reduce`).
+fn tree_reduce<T>(mut v: Vec<T>, op: &dyn Fn(T, T) -> T, identity: &dyn Fn() -> T) -> T {
+    if sim::mode() == Mode::Sequential {
+        return v.into_iter().fold(identity(), op);
+    }
+    if v.is_empty() {
+        return identity();
+    }
+    // identities may be mixed in at either end of any group
+    if rand_u64() & 3 == 0 {
+        v.insert(0, identity());
+    }
+    if rand_u64() & 3 == 0 {
+        v.push(identity());
+    }
+    while v.len() > 1 {
+        let i = (rand_u64() as usize) % (v.len() - 1);
+        let a = v.remove(i);
+        let b = v.remove(i);
+        v.insert(i, op(a, b));
+    }
+    v.pop().expect("one value left")
+}
+
+/// `Option`/`Result`, for the `try_*` consumers (rayon keeps its own private trait as well).
+pub trait TryLike: Sized {
+    type Output;
+    fn from_output(o: Self::Output) -> Self;
+    fn branch(self) -> Result<Self::Output, Self>;
+}
+impl<T> TryLike for Option<T> {
+    type Output = T;
+    fn from_output(o: T) -> Self {
+        Some(o)
+    }
+    fn branch(self) -> Result<T, Self> {
+        match self {
+            Some(t) => Ok(t),
+            None => Err(None),
+        }
+    }
+}
+impl<T, E> TryLike for Result<T, E> {
+    type Output = T;
+    fn from_output(o: T) -> Self {
+        Ok(o)
+    }
+    fn branch(self) -> Result<T, Self> {
+        match self {
+            Ok(t) => Ok(t),
+            Err(e) => Err(Err(e)),
+        }
+    }
 }
 
 // ---------------------------------------------------------------------------------
@@ -490,27 +586,219 @@ pub trait ParallelIterator: Sized + Send + Sync {
         OP: Fn(Self::Item, Self::Item) -> Self::Item + Sync + Send,
         ID: Fn() -> Self::Item + Sync + Send,
     {
-        execute(&self, None).into_ordered().fold(identity(), &op)
+        let items: Vec<Self::Item> = execute(&self, None).into_ordered().collect();
+        tree_reduce(items, &op, &identity)
     }
     fn reduce_with<OP>(self, op: OP) -> Option<Self::Item>
     where
         OP: Fn(Self::Item, Self::Item) -> Self::Item + Sync + Send,
     {
-        execute(&self, None).into_ordered().reduce(&op)
+        let items: Vec<Option<Self::Item>> = execute(&self, None).into_ordered().map(Some).collect();
+        if items.is_empty() {
+            return None;
+        }
+        tree_reduce(
+            items,
+            &|a, b| match (a, b) {
+                (Some(a), Some(b)) => Some(op(a, b)),
+                (Some(v), None) | (None, Some(v)) => Some(v),
+                (None, None) => None,
+            },
+            &|| None,
+        )
     }
-    fn fold<T, ID, F>(self, identity: ID, fold_op: F) -> OnceIter<T>
+    /// One accumulator per group of adjacent items; how many groups there are follows the
+    /// schedule (rayon: "the number of groups is not fixed").
+    fn fold<T, ID, F>(self, identity: ID, fold_op: F) -> VecIter<T>
     where
         F: Fn(T, Self::Item) -> T + Sync + Send,
         ID: Fn() -> T + Sync + Send,
         T: Send,
     {
-        // one fold group (rayon may use any number of groups)
-        let v = execute(&self, None)
-            .into_ordered()
-            .fold(identity(), &fold_op);
-        OnceIter {
-            v: Mutex::new(Some(v)),
+        let items: Vec<Self::Item> = execute(&self, None).into_ordered().collect();
+        let ends = random_group_bounds(items.len());
+        let mut out = Vec::new();
+        let mut it = items.into_iter();
+        let mut start = 0;
+        for e in ends {
+            let mut acc = identity();
+            for _ in start..e {
+                acc = fold_op(acc, it.next().expect("item"));
+            }
+            start = e;
+            out.push(acc);
         }
+        if out.is_empty() {
+            out.push(identity());
+        }
+        vec_iter(out)
+    }
+    fn fold_with<T, F>(self, init: T, fold_op: F) -> VecIter<T>
+    where
+        F: Fn(T, Self::Item) -> T + Sync + Send,
+        T: Send + Sync + Clone,
+    {
+        self.fold(move || init.clone(), fold_op)
+    }
+    /// Like `fold`, but a group stops at its first failure (the group then yields that failure).
+    fn try_fold<T, R, ID, F>(self, identity: ID, fold_op: F) -> VecIter<R>
+    where
+        F: Fn(T, Self::Item) -> R + Sync + Send,
+        ID: Fn() -> T + Sync + Send,
+        R: TryLike<Output = T> + Send,
+    {
+        let items: Vec<Self::Item> = execute(&self, None).into_ordered().collect();
+        let ends = random_group_bounds(items.len());
+        let mut out = Vec::new();
+        let mut it = items.into_iter();
+        let mut start = 0;
+        for e in ends {
+            let mut acc: Result<T, R> = Ok(identity());
+            for _ in start..e {
+                let x = it.next().expect("item");
+                acc = match acc {
+                    Ok(a) => fold_op(a, x).branch(),
+                    Err(r) => Err(r),
+                };
+            }
+            start = e;
+            out.push(match acc {
+                Ok(a) => R::from_output(a),
+                Err(r) => r,
+            });
+        }
+        if out.is_empty() {
+            out.push(R::from_output(identity()));
+        }
+        vec_iter(out)
+    }
+    fn try_fold_with<T, R, F>(self, init: T, fold_op: F) -> VecIter<R>
+    where
+        F: Fn(T, Self::Item) -> R + Sync + Send,
+        R: TryLike<Output = T> + Send,
+        T: Clone + Send + Sync,
+    {
+        self.try_fold(move || init.clone(), fold_op)
+    }
+    /// Reduce fallible items; with several failures the one that *arrived* first is returned.
+    fn try_reduce<T, OP, ID>(self, identity: ID, op: OP) -> Self::Item
+    where
+        OP: Fn(T, T) -> Self::Item + Sync + Send,
+        ID: Fn() -> T + Sync + Send,
+        Self::Item: TryLike<Output = T>,
+    {
+        let out = execute(&self, None);
+        let mut slots = out.slots;
+        // the failure that arrived first wins
+        let mut first_fail: Option<(u64, Self::Item)> = None;
+        let mut oks: Vec<T> = Vec::new();
+        slots.sort_by_key(|(i, _, _)| *i);
+        for (_, arrival, items) in slots {
+            for x in items {
+                match x.branch() {
+                    Ok(t) => oks.push(t),
+                    Err(r) => match &first_fail {
+                        Some((a, _)) if *a <= arrival => {}
+                        _ => first_fail = Some((arrival, r)),
+                    },
+                }
+            }
+        }
+        if let Some((_, r)) = first_fail {
+            return r;
+        }
+        // combine in a random tree; the first failing combination is the result
+        let failed: Mutex<Option<Self::Item>> = Mutex::new(None);
+        let combined = tree_reduce(
+            oks.into_iter().map(Some).collect(),
+            &|a: Option<T>, b: Option<T>| match (a, b) {
+                (Some(a), Some(b)) => match op(a, b).branch() {
+                    Ok(t) => Some(t),
+                    Err(r) => {
+                        let mut f = failed.lock().unwrap();
+                        if f.is_none() {
+                            *f = Some(r);
+                        }
+                        None
+                    }
+                },
+                _ => None,
+            },
+            &|| Some(identity()),
+        );
+        if let Some(r) = failed.into_inner().unwrap() {
+            return r;
+        }
+        match combined {
+            Some(t) => <Self::Item as TryLike>::from_output(t),
+            None => <Self::Item as TryLike>::from_output(identity()),
+        }
+    }
+    fn try_for_each_with<T, F, E>(self, init: T, f: F) -> Result<(), E>
+    where
+        T: Send + Sync + Clone,
+        F: Fn(&mut T, Self::Item) -> Result<(), E> + Sync + Send,
+        E: Send,
+    {
+        self.map_with(init, f).collect::<Result<(), E>>()
+    }
+    fn for_each_init<INIT, T, F>(self, init: INIT, f: F)
+    where
+        INIT: Fn() -> T + Sync + Send,
+        F: Fn(&mut T, Self::Item) + Sync + Send,
+        T: Send,
+    {
+        let m = self.map_init(init, f);
+        let _ = execute(&m, None);
+    }
+    fn try_for_each_init<INIT, T, F, E>(self, init: INIT, f: F) -> Result<(), E>
+    where
+        INIT: Fn() -> T + Sync + Send,
+        F: Fn(&mut T, Self::Item) -> Result<(), E> + Sync + Send,
+        T: Send,
+        E: Send,
+    {
+        self.map_init(init, f).collect::<Result<(), E>>()
+    }
+    fn update<F>(self, f: F) -> Update<Self, F>
+    where
+        F: Fn(&mut Self::Item) + Sync + Send,
+    {
+        Update { base: self, f }
+    }
+    fn flatten_iter(self) -> FlatMapIter<Self, fn(Self::Item) -> Self::Item>
+    where
+        Self::Item: IntoIterator,
+        <Self::Item as IntoIterator>::Item: Send,
+    {
+        fn id<T>(x: T) -> T {
+            x
+        }
+        self.flat_map_iter(id::<Self::Item> as fn(Self::Item) -> Self::Item)
+    }
+    fn flatten(self) -> FlatMap<Self, fn(Self::Item) -> Self::Item>
+    where
+        Self::Item: IntoParallelIterator,
+    {
+        fn id<T>(x: T) -> T {
+            x
+        }
+        self.flat_map(id::<Self::Item> as fn(Self::Item) -> Self::Item)
+    }
+    fn panic_fuse(self) -> Self {
+        self
+    }
+    fn min_by<F>(self, f: F) -> Option<Self::Item>
+    where
+        F: Sync + Send + Fn(&Self::Item, &Self::Item) -> std::cmp::Ordering,
+    {
+        execute(&self, None).into_ordered().min_by(|a, b| f(a, b))
+    }
+    fn max_by<F>(self, f: F) -> Option<Self::Item>
+    where
+        F: Sync + Send + Fn(&Self::Item, &Self::Item) -> std::cmp::Ordering,
+    {
+        execute(&self, None).into_ordered().max_by(|a, b| f(a, b))
     }
     fn sum<S>(self) -> S
     where
@@ -665,6 +953,15 @@ pub trait IndexedParallelIterator: ParallelIterator {
     }
     fn take(self, n: usize) -> Take<Self> {
         Take { base: self, n }
+    }
+    fn step_by(self, step: usize) -> StepBy<Self> {
+        assert!(step != 0, "step must not be zero");
+        StepBy { base: self, step }
+    }
+    /// Groups of `size` adjacent items, each group produced by one unit of work.
+    fn chunks(self, size: usize) -> ChunksOf<Self> {
+        assert!(size != 0, "chunk size must not be zero");
+        ChunksOf { base: self, size }
     }
     fn with_min_len(self, _min: usize) -> Self {
         self
@@ -1537,6 +1834,83 @@ impl<I: IndexedParallelIterator> ParallelIterator for Take<I> {
     }
 }
 impl<I: IndexedParallelIterator> IndexedParallelIterator for Take<I> {}
+
+pub struct Update<I, F> {
+    base: I,
+    f: F,
+}
+impl<I, F> ParallelIterator for Update<I, F>
+where
+    I: ParallelIterator,
+    F: Fn(&mut I::Item) + Sync + Send,
+{
+    type Item = I::Item;
+    fn base_len(&self) -> usize {
+        self.base.base_len()
+    }
+    fn pull(&self, ctx: Ctx, i: usize, sink: &mut dyn FnMut(I::Item)) {
+        self.base.pull(ctx, i, &mut |mut x| {
+            (self.f)(&mut x);
+            sink(x)
+        })
+    }
+    fn opt_len(&self) -> Option<usize> {
+        self.base.opt_len()
+    }
+}
+impl<I, F> IndexedParallelIterator for Update<I, F>
+where
+    I: IndexedParallelIterator,
+    F: Fn(&mut I::Item) + Sync + Send,
+{
+}
+
+pub struct StepBy<I> {
+    base: I,
+    step: usize,
+}
+impl<I: IndexedParallelIterator> ParallelIterator for StepBy<I> {
+    type Item = I::Item;
+    fn base_len(&self) -> usize {
+        let n = self.base.base_len();
+        if n == 0 {
+            0
+        } else {
+            (n - 1) / self.step + 1
+        }
+    }
+    fn pull(&self, ctx: Ctx, i: usize, sink: &mut dyn FnMut(I::Item)) {
+        self.base.pull(ctx, i * self.step, sink)
+    }
+    fn opt_len(&self) -> Option<usize> {
+        Some(self.base_len())
+    }
+}
+impl<I: IndexedParallelIterator> IndexedParallelIterator for StepBy<I> {}
+
+pub struct ChunksOf<I> {
+    base: I,
+    size: usize,
+}
+impl<I: IndexedParallelIterator> ParallelIterator for ChunksOf<I> {
+    type Item = Vec<I::Item>;
+    fn base_len(&self) -> usize {
+        let n = self.base.base_len();
+        (n + self.size - 1) / self.size
+    }
+    fn pull(&self, ctx: Ctx, i: usize, sink: &mut dyn FnMut(Vec<I::Item>)) {
+        let n = self.base.base_len();
+        let mut v = Vec::new();
+        for j in i * self.size..((i + 1) * self.size).min(n) {
+            self.base.pull(ctx, j, &mut |x| v.push(x));
+        }
+        sink(v)
+    }
+    fn opt_len(&self) -> Option<usize> {
+        Some(self.base_len())
+    }
+}
+impl<I: IndexedParallelIterator> IndexedParallelIterator for ChunksOf<I> {}
 
 pub struct WhileSome<I> {
     base: I,
